@@ -1,6 +1,8 @@
 package checks
 
 import (
+	"sync/atomic"
+	"os"
 	"encoding/json"
 	"fmt"
 	"math/rand"
@@ -35,6 +37,11 @@ type c01ReplicaParams struct {
 	DelayUS  int    `json:"delay_us"`
 	RowsFile string `json:"rows_file"`
 	API      bool   `json:"api"` // this replica answers read-only API requests between blocks
+	// RateFault: one read of recorded rates (outside the block's transaction) fails in the PIP-10 era. By design that
+	// ends the daemon process; a second job (Resume) continues on the same database.
+	RateFault bool   `json:"rate_fault"`
+	Resume    bool   `json:"resume"`
+	DBPath    string `json:"db_path"`
 }
 
 func init() {
@@ -140,6 +147,23 @@ func c01Replica(j *orch.Job, r *orch.Result) error {
 		return err
 	}
 	ro := ReplayOpts{DBPath: filepath.Join(j.Dir, "db"), ShortAvg: 12, EntryDelayUS: p.DelayUS, DelaySeed: int64(p.Replica), KeepRows: true, Watchdog: 400 * time.Second}
+	if p.DBPath != "" {
+		ro.DBPath = p.DBPath
+	}
+	if p.RateFault && !p.Resume {
+		ro.Wrap = true
+		var once int32
+		ro.OnNode = func(n *harness.Node) {
+			vdriver.Set(&vdriver.Hooks{Decide: func(ev *vdriver.Event) (vdriver.Action, time.Duration) {
+				if !ev.InTx && ev.Kind == vdriver.KQuery && strings.Contains(ev.SQL, "FROM pn_rate") && n.Fake.Cur() >= c.Eras.PIP10+5 &&
+					atomic.CompareAndSwapInt32(&once, 0, 1) {
+					os.WriteFile(p.DBPath+".rate-read-failed", []byte(fmt.Sprint(n.Fake.Cur())), 0644)
+					return vdriver.FailInstead, 0
+				}
+				return vdriver.Proceed, 0
+			}})
+		}
+	}
 	if p.API {
 		// this replica also answers read requests between blocks (one at a time, never during a block): the
 		// ledger is a function of the chain, not of who asked the daemon what
@@ -258,6 +282,7 @@ func checkC01(c *Ctx) *orch.Outcome {
 	o.Assumptions = []string{
 		"schedules and hash seeds are sampled (fresh processes, GOMAXPROCS 1/2/16, randomized upstream response delays, TZ), not enumerated",
 		"every third replica's fake factomd fails every 29th entry request once, and its database refuses the last statement of every fifth block once (the block is rolled back and applied again by the same process)",
+		"one replica in six has one read of recorded rates fail in the PIP-10 era: by design that ends the daemon process, and a fresh process finishes the chain on the same database",
 		"every third replica also answers read-only API requests (rich lists, issuance, rates, sync status) between blocks, one at a time",
 		"averaging window shortened to 12 blocks (node.AveragePeriod) so that PIP-10 conversions execute in compressed chains",
 		"era heights compressed (order and equalities of mainnet kept)",
@@ -298,7 +323,12 @@ func checkC01(c *Ctx) *orch.Outcome {
 			if k%2 == 1 {
 				delay = 300 + 200*k
 			}
-			pj, _ := json.Marshal(c01ReplicaParams{Dir: ch.dir, Replica: k, DelayUS: delay, API: k%3 == 2, RowsFile: filepath.Join(ch.dir, fmt.Sprintf("rows-%d.json", k))})
+			rp := c01ReplicaParams{Dir: ch.dir, Replica: k, DelayUS: delay, API: k%3 == 2, RowsFile: filepath.Join(ch.dir, fmt.Sprintf("rows-%d.json", k))}
+			if k%6 == 0 {
+				// a failed rate read ends this replica's daemon in the PIP-10 era; a fresh process finishes the chain
+				rp.RateFault, rp.DBPath = true, filepath.Join(ch.dir, fmt.Sprintf("db-rep%d", k))
+			}
+			pj, _ := json.Marshal(rp)
 			job := orch.Job{Kind: "c01.replica", Name: fmt.Sprintf("c01-replica-%d-%d", ch.seed, k), Seed: ch.seed, Params: pj, Timeout: 1200,
 				Env: []string{"GOMAXPROCS=" + gmp[k%len(gmp)], "TZ=" + tzs[k%len(tzs)]}}
 			if k == nRep-1 {
@@ -309,7 +339,25 @@ func checkC01(c *Ctx) *orch.Outcome {
 		}
 	}
 	rr := c.R.Run(rj)
+	// replicas stopped by their failed rate read are finished by a fresh process
+	resumed := 0
+	for i := range rr {
+		var rp c01ReplicaParams
+		json.Unmarshal(rj[i].Params, &rp)
+		if !rp.RateFault || !rr[i].Crashed {
+			continue
+		}
+		if !strings.Contains(rr[i].Stderr, "getting rates") && !strings.Contains(rr[i].Stderr, "pn_rate") {
+			continue // crashed for another reason: reported below
+		}
+		rp.Resume = true
+		pj, _ := json.Marshal(rp)
+		job := orch.Job{Kind: "c01.replica", Name: rj[i].Name + "-resumed", Seed: rj[i].Seed, Params: pj, Timeout: 1200, Env: rj[i].Env}
+		rr[i] = c.R.RunOne(&job)
+		resumed++
+	}
 	o.Merge(rr)
+	o.Extra["replicas_finished_by_a_fresh_process_after_a_failed_rate_read"] = resumed
 
 	// compare
 	distinctHashes := map[int]map[string]bool{}
